@@ -47,7 +47,7 @@ Members == { [op |-> "base", ops |-> BaseOps(49)],
              [op |-> "obj", ks |-> <<111>>, ops |-> <<ReqOp(<<120>>, <<"i64", U(40000)>>), ReqOp(<<121>>, <<"tp_ns", <<"ts", TRUE, Bytes8(0,0,0,0,0,0,0,2), 500000000>>>>)>>],
              [op |-> "arr", ks |-> <<114>>, ops |-> <<ElemOp(<<"vec_u8", <<"bin", <<1, 2>>>>>>), ElemOp(<<"u32", U(70000)>>)>>] }
 Next == /\ root.k = "obj" /\ n < MaxMembers
-        /\ \E mbr \in Members : root' = [root EXCEPT !.ops = Append(@, mbr)]
+        /\ \E mbr \in Members : (\A i \in 1..Len(root.ops) : root.ops[i] # mbr) /\ root' = [root EXCEPT !.ops = Append(@, mbr)]
         /\ n' = n + 1
 
 Spec == Init /\ [][Next]_vars
